@@ -105,10 +105,31 @@ def flat (ns : Nodes) : FState :=
   flatLoop (ns.length + 1) ns.length { nodes := ns, out := [], oof := false }
 
 /-! ## the task table and the command line -/
+/-- what a generated clean action really does to the target tree when it is executed -/
+inductive Eff
+  | rm (p : Path)      -- `rm -f p` / `os.remove(p)` if it is a file
+  | mk (p : Path)      -- `touch p` / `open(p, 'a')` for a top-level name
+deriving DecidableEq, Repr
+
+inductive ActKind
+  | aware     -- python callable with a `dryrun` parameter: called on every clean, told whether it is a dry run
+  | plain     -- python callable without it
+  | cmd       -- shell command
+deriving DecidableEq, Repr
+
+structure Act where
+  kind : ActKind
+  eff : Option Eff
+deriving DecidableEq, Repr
+
+/-- `(not dryrun) or execute_on_dryrun` of `Task.clean`, decided **per action**: on a dry run only a python
+    callable that declares a `dryrun` parameter is executed -/
+def actRuns (dry : Bool) (a : Act) : Bool := !dry || a.kind == .aware
+
 inductive CleanKind
   | nothing                          -- `clean` not given: no clean behaviour
   | targets                          -- `clean: True`
-  | action (wantsDryrun : Bool)      -- one python clean-action; `True` when it has a `dryrun` parameter
+  | actions (as : List Act)          -- `clean: [a0, a1, ...]`
 deriving DecidableEq, Repr
 
 structure Task where
@@ -231,8 +252,10 @@ structure World where
 deriving Repr
 
 inductive Ev
-  | executing (t : Name)            -- "<t> - executing '<action>'" written to the outstream
-  | ran (t : Name) (dry : Bool)     -- the clean action was called (with this `dryrun` value if it takes one)
+  | executing (t : Name) (k : Nat)       -- "<t> - executing '<action k>'" written to the outstream
+  | ran (t : Name) (k : Nat) (dry : Bool)  -- python action k was called (`dry`: the `dryrun` value it was given,
+                                         --   `false` for a callable without that parameter)
+  | cmd (t : Name) (k : Nat)             -- shell action k was executed
   | rmFile (t : Name) (p : Path)
   | rmDir (t : Name) (p : Path)
   | notEmpty (t : Name) (p : Path)
@@ -268,6 +291,24 @@ def rmTarget (dry : Bool) (t : Name) (st : World × List Ev) (p : Path) : World 
 def cleanTargets (dry : Bool) (t : Name) (targets : List Path) (st : World × List Ev) : World × List Ev :=
   (sortDesc targets).foldl (rmTarget dry t) st
 
+/-- the effect of an executed action on the tree (DB untouched) -/
+def applyEff : Option Eff → World → World
+  | none, w => w
+  | some (.rm p), w => { w with files := w.files.filter (· ≠ p) }
+  | some (.mk p), w => if p ∈ w.files || p ∈ w.dirs then w else { w with files := w.files ++ [p] }
+
+/-- one iteration of the `for action in self.clean_actions` loop.  A dryrun-aware callable that is told
+    `dryrun=True` leaves the tree alone (that is what the parameter is for) -/
+def runAct (dry : Bool) (t : Name) (k : Nat) (a : Act) (st : World × List Ev) : World × List Ev :=
+  if actRuns dry a then
+    ((if dry then st.1 else applyEff a.eff st.1),
+     st.2 ++ [Ev.executing t k, if a.kind = .cmd then Ev.cmd t k else Ev.ran t k (dry && a.kind == .aware)])
+  else (st.1, st.2 ++ [Ev.executing t k])
+
+def runActs (dry : Bool) (t : Name) : Nat → List Act → World × List Ev → World × List Ev
+  | _, [], st => st
+  | k, a :: as, st => runActs dry t (k + 1) as (runAct dry t k a st)
+
 /-- `Task.clean(outstream, dryrun)` -/
 def taskClean (tbl : Table) (dry : Bool) (t : Name) (st : World × List Ev) : World × List Ev :=
   match tbl[t]? with
@@ -276,9 +317,7 @@ def taskClean (tbl : Table) (dry : Bool) (t : Name) (st : World × List Ev) : Wo
     match tk.kind with
     | .nothing => st
     | .targets => cleanTargets dry t tk.targets st
-    | .action wants =>
-      if !dry || wants then (st.1, st.2 ++ [Ev.executing t, Ev.ran t (dry && wants)])
-      else (st.1, st.2 ++ [Ev.executing t])
+    | .actions as => runActs dry t 0 as st
 
 def forgetTask (t : Name) (w : World) : World := { w with db := w.db.filter (· ≠ t) }
 
@@ -353,7 +392,7 @@ def visible (tbl : Table) (w : World) (t : Name) : Bool :=
   | none => false
   | some tk => match tk.kind with
     | .nothing => false
-    | .action _ => true
+    | .actions as => !as.isEmpty
     | .targets => tk.targets.any fun p => p ∈ w.files || p ∈ w.dirs
 
 /-- the declarative clean set, computed without the traversal: `tbl.length` rounds of adding dependencies, or the
@@ -377,6 +416,23 @@ def monitorOrder (tbl : Table) (r : Req) (base : List Name) (w : World) (o : Lis
   && subset ((declSet tbl r base).filter (visible tbl w)) o
   && (!(withDeps r && acyclicB tbl) || depFirstB (depsOf tbl) o)
 
+/-- paths the clean *actions* of the given tasks may touch (user code: outside the property's frame) -/
+def effPaths (tbl : Table) (cleaned : List Name) : List Path :=
+  cleaned.flatMap fun t => match tbl[t]? with
+    | some tk => match tk.kind with
+      | .actions as => as.filterMap fun a => match a.eff with
+        | some (.rm p) => some p
+        | some (.mk p) => some p
+        | none => none
+      | _ => []
+    | none => []
+
+/-- no clean action of the table touches the tree -/
+def effFree (tbl : Table) : Bool :=
+  tbl.all fun tk => match tk.kind with
+    | .actions as => as.all fun a => a.eff.isNone
+    | _ => true
+
 /-- targets of `clean: True` tasks among `cleaned` -/
 def cleanedTargets (tbl : Table) (cleaned : List Name) : List Path :=
   cleaned.flatMap fun t => match tbl[t]? with
@@ -385,7 +441,7 @@ def cleanedTargets (tbl : Table) (cleaned : List Name) : List Path :=
 
 /-- the effect part of the statement, on an observed final world `w'` (`cleaned` = the declarative clean set):
     dry-run: nothing changes; otherwise every existing target file of a cleaned `clean: True` task is gone and
-    nothing else is; only target directories disappear, and a target directory all of whose content are
+    nothing else is (paths that the cleaned tasks' own clean actions touch are exempt: user code); only target directories disappear, and a target directory all of whose content are
     targets of the same task does disappear; `--forget` erases exactly the cleaned tasks -/
 def monitorEffects (tbl : Table) (r : Req) (cleaned : List Name) (w w' : World) : Bool :=
   if r.dryrun then
@@ -393,8 +449,9 @@ def monitorEffects (tbl : Table) (r : Req) (cleaned : List Name) (w w' : World) 
       && subset w.db w'.db && subset w'.db w.db
   else
     let tg := cleanedTargets tbl cleaned
-    subset' w'.files w.files
-    && w.files.all (fun p => (p ∈ w'.files) == !(p ∈ tg))
+    let ep := effPaths tbl cleaned
+    w'.files.all (fun p => p ∈ w.files || p ∈ ep)
+    && w.files.all (fun p => p ∈ ep || (p ∈ w'.files) == !(p ∈ tg))
     && subset' w'.dirs w.dirs
     && w.dirs.all (fun d => d ∈ w'.dirs || d ∈ tg)
     && cleaned.all (fun t => match tbl[t]? with
